@@ -9,4 +9,4 @@ Extraction "model.ml"
   (* Codec *) enc size dec has_type ty_ok guards_fixed guards_pinned utf8_valid
   (* Raft *) Raft.init_default Raft.step Raft.run Raft.election_safety_b Raft.committed_agree_b
              Raft.leader_completeness_b Raft.double_vote_b Raft.stale_vote_b Raft.ack_diverged_b
-             Raft.old_term_commit_b Raft.all_synced_b Raft.drain.
+             Raft.old_term_commit_b Raft.ack_below_vote_b Raft.all_synced_b Raft.drain.
